@@ -137,6 +137,19 @@ class Check:
             with cf.ThreadPoolExecutor(max_workers=4) as ex:
                 results = list(ex.map(one, self.streams))
             for st, r, e in results:
+                if isinstance(e, C.HarnessDied) and e.case is not None and e.rc not in (-9, 124, 137):
+                    # the code under test ended the whole process while working on this case: that case is a failing input
+                    # (nothing is returned for it), unless the harness was killed from outside (timeout / memory)
+                    payload = {"theorem_or_stream": st.name, "input": e.case, "observed": {"process_exit_status": e.rc, "stderr": e.stderr},
+                               "why": "the code under test terminated the process instead of returning a result for this input",
+                               "how_to_replay": "./check %s --replay <this file>" % self.pid}
+                    try:
+                        if e.before and len(json.dumps(e.before, default=str)) <= 1 << 20:
+                            payload["previous_inputs"] = e.before
+                    except Exception:
+                        pass
+                    self.violation(payload)
+                    continue
                 if e is not None:
                     stream_errors.append("%s: %s" % (st.name, str(e)[-1500:]))
                     C.log("stream %s failed: %s" % (st.name, str(e)[-3000:]))
